@@ -8,6 +8,8 @@ import FlatccModel.Emitter
 import FlatccModel.PrintFlush
 import FlatccModel.SchemaNum
 import FlatccModel.Layout
+import FlatccModel.Trie
+import FlatccModel.TrieGen
 /-! `fmodel`: executes the model's definitions on protocol lines (stdin → stdout, one result line per op line). -/
 open Flatcc Flatcc.Util
 
@@ -361,6 +363,62 @@ def layoutOp (op : String) (args : List String) : String :=
     ",".intercalate ((assignIds fields 0).map toString)
   | _, _ => "bad-op"
 
+/-! ### generated JSON parser tries -/
+partial def parseTree (toks : Array String) (i : Nat) : Flatcc.Trie.Tree × Nat :=
+  match toks.getD i "U" with
+  | "L" =>
+    let tag := hexToBytes (toks.getD (i + 1) "")
+    let (l, j) := parseTree toks (i + 2)
+    let (r, k) := parseTree toks j
+    (.lt tag l r, k)
+  | "E" =>
+    let n := natArg (toks.getD (i + 1) "0")
+    let bs := hexToBytes (toks.getD (i + 2) "")
+    let (t, j) := parseTree toks (i + 3)
+    let (e, k) := parseTree toks j
+    (.eqm n bs t e, k)
+  | "M" =>
+    let (f, j) := parseTree toks (i + 3)
+    (.matchAt (natArg (toks.getD (i + 1) "0")) (natArg (toks.getD (i + 2) "0")) f, j)
+  | "D" => let (t, j) := parseTree toks (i + 1); (.descend t, j)
+  | _ => (.unmatched, i + 1)
+
+def bytesOfWord (w : Nat) : List Nat := (List.range 8).map (fun i => (w / 2 ^ (56 - 8 * i)) % 256)
+def maskBytes (m : Nat) : Nat := ((List.range 9).find? (fun n => m == 2^64 - 2^(8 * (8 - n)))).getD 99
+
+partial def convGen : Flatcc.TrieGen.Tree → Flatcc.Trie.Tree
+  | .lt tag l r => .lt (bytesOfWord tag) (convGen l) (convGen r)
+  | .eqm mask tag t e => let n := maskBytes mask; .eqm n ((bytesOfWord tag).take n) (convGen t) (convGen e)
+  | .matchAt idx n fail => .matchAt idx n (convGen fail)
+  | .descend t => .descend (convGen t)
+  | .unmatched => .unmatched
+  | .bug _ => .unmatched
+
+partial def treeEq : Flatcc.Trie.Tree → Flatcc.Trie.Tree → Bool
+  | .lt a l r, .lt b l2 r2 => a == b && treeEq l l2 && treeEq r r2
+  | .eqm n bs t e, .eqm n2 bs2 t2 e2 => n == n2 && bs == bs2 && treeEq t t2 && treeEq e e2
+  | .matchAt i n f, .matchAt i2 n2 f2 => i == i2 && n == n2 && treeEq f f2
+  | .descend t, .descend t2 => treeEq t t2
+  | .unmatched, .unmatched => true
+  | _, _ => false
+
+/-- trie <dict hex;hex;…> <tree tokens> <probes hex;hex;…|-> -/
+def trieOp (args : List String) : String :=
+  match args with
+  | [dictS, treeS, probesS] =>
+    let d : List (List Nat) := (dictS.splitOn ";").map hexToBytes
+    let (t, _) := parseTree (treeS.splitOn ",").toArray 0
+    let sndOk := Flatcc.Trie.snd d t [] []
+    let bad := (List.range d.length).find? (fun i => !Flatcc.Trie.cmp (d.getD i []) i t 0)
+    let termFree := d.all (fun k => k.all (fun b => b != 34))
+    let distinct := d.eraseDups.length == d.length
+    let g := convGen (Flatcc.TrieGen.genTrie d.toArray 0 (d.length - 1) 0)
+    let same := treeEq g t
+    let probes := if probesS == "-" then [] else (probesS.splitOn ";").map hexToBytes
+    let rs := probes.map (fun s => match Flatcc.Trie.eval t s 0 with | some i => toString i | none => "u")
+    s!"snd={sndOk} cmp={match bad with | some i => toString i | none => "ok"} keys={termFree && distinct} gen={if same then "same" else "diff"} probes={";".intercalate rs}"
+  | _ => "bad-op"
+
 def step (line : String) : String :=
   match line.trimAscii.toString.splitOn " " with
   | "num" :: args => numOp args
@@ -370,6 +428,7 @@ def step (line : String) : String :=
   | "pr" :: args => prOp args
   | "lit" :: args => schemaNumOp "lit" args
   | "layout" :: args => layoutOp "layout" args
+  | "trie" :: args => trieOp args
   | "ids" :: args => layoutOp "ids" args
   | "enum" :: args => schemaNumOp "enum" args
   | "sort" :: args => sortOp ("sort" :: args)
